@@ -282,7 +282,7 @@ def run_job(job, cap=5):
                     opd = ops[i] if i < len(ops) else {'op': 'end', 'path': ''}
                     viol('kill %s (%s %s): %s' % (at, opd['op'], opd['path'], v),
                          'kill:' + v.split('(')[0][:40], kill_at=i, torn=torn)
-        res['distinct'].add(h64(tag))
+        res['distinct'] = set(res['states'])
     finally:
         if template:
             warcharn.cleanup(template)
@@ -313,7 +313,7 @@ def describe(tier):
              'every operation index i of the append\'s log: OSError at i (and a short write '
              'followed by OSError for writes); for every i and every torn prefix of a write: '
              'the directory rebuilt from the log prefix is checked.  distinct = distinct '
-             'append scenarios; states = distinct (scenario, fault kind, op index, torn)',
+             '(scenario, fault kind, operation index, torn length) fault points',
         bounds=dict(prev_records='1,2' if tier == 'quick' else '1,2,4',
                     torn='all prefixes <=48 B else {0,1,mid,n-1,n}'),
         assumptions=['process-kill model: bytes handed to write(2) survive, user-space '
